@@ -131,6 +131,23 @@ ExtendOutcomes(s, rs, okres) ==
                  ELSE {o}
                  : o \in AppendOutcomes(s, rs[1]) }
 
+\* slice assignment g[a:b] = rows: as for a list, the rows of the slice are replaced by the rows given (a slice
+\* whose end lies before its start is empty and sits at its start); every row given must be a dict and pass the
+\* gate, otherwise nothing is replaced
+SetSlice(s, a, b, rs) == LET lo == SliceLo(a, Len(s)) hi == Max(lo, SliceHi(b, Len(s)))
+                         IN SubSeq(s, 1, lo) \o rs \o SubSeq(s, hi + 1, Len(s))
+SetSliceOutcomes(s, a, b, rs) ==
+    LET I  == 1..Len(rs)
+        E  == (IF \E i \in I : rs[i] \in NonDict THEN {<<"TypeError">>} ELSE {})
+              \cup (IF \E i \in I : rs[i] \in DictRows /\ Gate(s, rs[i]) = "refuse" THEN {<<"ValueError">>} ELSE {})
+        up == \E i \in I : rs[i] \in DictRows /\ Gate(s, rs[i]) = "upgrade"
+        v3 == IF up THEN V3 ELSE s.ver
+    IN IF E # {} THEN {Out(e, s.rows, v) : e \in E, v \in {s.ver, v3}}
+       ELSE {Out(<<"None">>, SetSlice(s.rows, a, b, rs), v3)}
+\* g[a:b] = row: a single row where rows are expected.  A dict yields its keys, which are no rows; anything else
+\* that is no row is refused as well
+SetSliceRowOutcomes(s, a, b, r) == Same(s, {<<"TypeError">>})
+
 (***************************************************************************)
 (* Derived grids (C14 slicing, C15 "derived grids"): the history continues *)
 (* on the derived grid, which inherits the parent's version and "given".   *)
@@ -151,12 +168,16 @@ Outcomes(s, o) ==
       [] o.name = "clear"    -> ClearOutcomes(s)
       [] o.name = "extend"   -> ExtendOutcomes(s, o.rs, <<"None">>)
       [] o.name = "iadd"     -> ExtendOutcomes(s, o.rs, <<"self">>)
+      [] o.name = "setslice" -> SetSliceOutcomes(s, o.a, o.b, o.rs)
+      [] o.name = "setslice_row" -> SetSliceRowOutcomes(s, o.a, o.b, o.r)
       [] o.name = "slice"    -> SliceOutcomes(s, o.a, o.b)
       [] o.name = "filter_id" -> FilterIdOutcomes(s)
       [] o.name = "filter_limit" -> FilterLimitOutcomes(s, o.n)
 
 AnyRow == DictRows \cup NonDict
 SliceArgs == IdxArgs \cup {NoArg}
+SetSliceArgs == {NoArg, -1, 0, 1, 2} \cap SliceArgs        \* the bounds explored for slice assignment
+SetSliceFirst == {r \in DictRows : IdOf(r) # 0 /\ \A q \in DictRows : (IdOf(q) = IdOf(r) => q = r)}   \* first of two rows: one with an id of its own
 
 Ops ==
     [name : {"append", "remove"}, r : AnyRow]
@@ -164,6 +185,9 @@ Ops ==
     \cup [name : {"delitem"}, i : IdxArgs]
     \cup [name : {"pop"}, i : IdxArgs \cup {NoArg}]
     \cup [name : {"delslice", "slice"}, a : SliceArgs, b : SliceArgs]
+    \cup [name : {"setslice"}, a : SetSliceArgs, b : SetSliceArgs,
+          rs : {<<>>} \cup {<<r1>> : r1 \in AnyRow} \cup {<<r1, r2>> : r1 \in SetSliceFirst, r2 \in AnyRow}]
+    \cup [name : {"setslice_row"}, a : {NoArg, 0}, b : {NoArg, 1}, r : AnyRow]
     \cup [name : {"reverse", "clear", "filter_id"}]
     \cup [name : {"filter_limit"}, n : {1, 2}]
     \cup [name : {"extend", "iadd"}, rs : {<<>>} \cup {<<r1>> : r1 \in AnyRow}
@@ -216,7 +240,7 @@ GateInv      == \A r \in Range(rows) : r \in Only3Rows => ~Pre3(ver)
 IsError(r)   == r[1] \in {"TypeError", "ValueError", "IndexError"}
 \* C14: a refused single-row operation leaves the rows unchanged
 RefusedKeepsRows ==
-    [][(IsError(res') /\ op'.name \notin {"extend", "iadd"}) => rows' = rows]_vars
+    [][(IsError(res') /\ op'.name \notin {"extend", "iadd"}) => rows' = rows]_vars        \* slice assignment included
 \* C10: an explicit version is never changed by any operation
 GivenVersionFixed == [][(given /\ op'.name # "switch") => ver' = ver]_vars
 \* C14/C15: the two live grids are independent -- only deriving and switching touch the parked one, and the
